@@ -231,6 +231,13 @@ func (w *world) lock(th, sid, name string, size, lt, wt *int32, label string) {
 }
 // lockReq is a blocking Lock whose REQUEST context (a child of the session's context, as over gRPC)
 // can be cancelled on its own by cancelReq(label) while the session stays connected.
+func (w *world) newReqDeadline(label, sid string, d time.Duration) {
+	rc, cancel := context.WithTimeout(w.sess[sid], d)
+	if w.reqCancel == nil {
+		w.reqCancel, w.reqCtx = map[string]context.CancelFunc{}, map[string]context.Context{}
+	}
+	w.reqCancel[label], w.reqCtx[label] = cancel, rc
+}
 func (w *world) newReq(label, sid string) {
 	rc, cancel := context.WithCancel(w.sess[sid])
 	if w.reqCancel == nil {
@@ -461,6 +468,13 @@ func finish(w *world, extra func()) conc.Outcome {
 			extra()
 		}()
 	}
+	// C14: "successful responses never carry an error, and responses that carry an error never report
+	// locked or unlocked as true" - for every call of every schedule
+	for _, c := range w.calls {
+		if c.Done && c.Ok && c.Err != "-" && c.Err != "" {
+			w.v("conc:code:success-with-error", "%s %s(%s) answered locked/unlocked=true together with the error %s", c.Thread, c.Kind, c.Name, c.Err)
+		}
+	}
 	key := w.summary()
 	det := map[string]any{"calls": w.calls}
 	vs := []map[string]string{}
@@ -558,6 +572,30 @@ func templates() []template {
 		}}
 	}
 	return []template{
+		{name: "lock(wt5,request-deadline-2s)||+2s||+3s", props: []string{"C03"}, bound: 1, prog: func(t *testing.T) conc.Program {
+			// the caller's own deadline (a gRPC per-call deadline) ends a blocked Lock before its wait
+			// timeout: the call may fail, but not with LockWaitTimeout - that error is never earlier than the timeout
+			return conc.Program{
+				Setup: func() any {
+					w := newWorld(t, cfgGc0(), "s1", "s2")
+					w.mustTry("s1", "x", nil, nil, "h")
+					w.newReqDeadline("l", "s2", 2*time.Second)
+					return w
+				},
+				Threads: []conc.Thread{
+					{Name: "L", Run: func(c any) { c.(*world).lockReq("L", "s2", "x", nil, nil, p32(5), "l") }},
+				},
+				Ticks: []time.Duration{2 * time.Second, 3 * time.Second},
+				Finish: func(c any) conc.Outcome {
+					w := c.(*world)
+					return finish(w, func() {
+						earlyTimeout(w, map[string]int64{"L": int64(5 * time.Second)})
+						capacityMonitor(w, "x", 1, 1)
+						threadHistory(w, "x", 1, []string{w.keys["h"]})
+					})
+				},
+			}
+		}},
 		reqCancelled("lock(request-cancelled)||unlock", false),
 		reqCancelled("lock(request-cancelled)||unlock [no-clear]", true),
 		{name: "lock||unlock||trylock(size2);trylock(size2)", props: []string{"C01", "C12"}, bound: 2, prog: func(t *testing.T) conc.Program {
@@ -741,7 +779,7 @@ func templates() []template {
 				},
 			}
 		}},
-		{name: "unlock||renew||expiry", props: []string{"C05"}, bound: 2, prog: func(t *testing.T) conc.Program {
+		{name: "unlock||renew||expiry", props: []string{"C05", "C14"}, bound: 2, prog: func(t *testing.T) conc.Program {
 			return conc.Program{
 				Setup: func() any {
 					w := newWorld(t, cfgFile(), "s1", "s2")
@@ -989,7 +1027,7 @@ func templates() []template {
 				},
 			}
 		}},
-		{name: "expiry||unlock (crash images)", props: []string{"C09"}, bound: 2, prog: func(t *testing.T) conc.Program {
+		{name: "expiry||unlock (crash images)", props: []string{"C09", "C14"}, bound: 2, prog: func(t *testing.T) conc.Program {
 			// an Unlock racing the lease callback of the same hold: whichever answers, the file must not
 			// record the hold once the release is acknowledged
 			return conc.Program{
@@ -1225,7 +1263,7 @@ func threadHistory(w *world, name string, size int, initial []string) {
 			cls = "0"
 		case c.Err == "LockDoesNotExist":
 			cls = "n"
-		case c.Err == "LockWaitTimeout" || c.Err == "Canceled" || c.Err == "ManagerShutdown":
+		case c.Err == "LockWaitTimeout" || c.Err == "Canceled" || c.Err == "ManagerShutdown" || strings.Contains(c.Err, "deadline_exceeded"):
 			cls = "c"
 		case c.Err == "LockSizeMismatch" || c.Err == "InvalidLockSize":
 			cls = "r"
@@ -1614,6 +1652,8 @@ func relevant(prop, sig string) bool {
 		return strings.HasPrefix(sig, "conc:shutdown")
 	case "C13":
 		return strings.HasPrefix(sig, "conc:gc") || strings.HasPrefix(sig, "conc:capacity")
+	case "C14":
+		return strings.HasPrefix(sig, "conc:code")
 	}
 	return true
 }
